@@ -1074,16 +1074,25 @@ class C09(Property):
                 break
 
     def snippet(self, case):
-        return ("# plain reproduction against the coba checkout (no Lean, no engine); prints what the filter delivers\n"
-                "import sys, json; sys.path[:0] = [%r, %r]\n"
-                "from props.c09 import Run\n"
+        head = ("# plain reproduction against the coba checkout (no Lean, no engine); prints what the filter delivers\n"
+                "import sys, json, itertools; sys.path[:0] = [%r, %r]\n"
+                "from props.c09 import Run, give\n"
                 "case = json.loads(%r)\n"
                 "r = Run(case)\n"
-                "reader = r.new_reader()\n"
                 "print('input ids  ', r.ids)\n"
-                "print('first read ', r.read_once(reader))\n"
-                "print('second read', r.read_once(reader))\n"
-                % (os.environ.get("COBA_REPO", "/repo"), os.path.join(os.path.dirname(os.path.dirname(os.path.abspath(__file__)))), json.dumps(case)))
+                % (os.environ.get("COBA_REPO", "/repo"), os.path.dirname(os.path.dirname(os.path.abspath(__file__))), json.dumps(case)))
+        if case["op"]["name"] == "cache":
+            return head + ("from coba.environments.filters import Cache\n"
+                           "c = Cache(case['op'].get('nslice', 25)); alive = []\n"
+                           "for k in case['op']['reads']:\n"
+                           "    g = c.filter(give(r.items, 'gen')); alive.append(g)\n"
+                           "    print('read consuming', k, '->', r.describe(list(g if k is None else itertools.islice(g, k))))\n")
+        return head + ("reader = r.new_reader()\n"
+                       "print('first read ', r.read_once(reader))\n"
+                       "print('second read', r.read_once(reader))\n"
+                       "print('new filter ', r.read_once(r.new_reader()))\n"
+                       "it = iter(reader()); next(it, None)     # an abandoned, still alive iterator of the same filter\n"
+                       "print('third read ', r.read_once(reader))\n")
 
 
 PROPERTY = C09()
